@@ -142,7 +142,10 @@ pub fn from_orientation(o: Orientation) -> Orient {
     Orient { rot, mirrored: o.mirrored }
 }
 
-pub trait Dut {
+pub trait Dut<'a> {
+    /// release everything and initialise again with the options of `cfg` (same model,
+    /// transport and reset pin)
+    fn reinit(self: Box<Self>, cfg: &Config, clk: &mut SimClock) -> Result<Box<dyn Dut<'a> + 'a>, InitFail>;
     fn set_pixel(&mut self, x: u16, y: u16, c: u32) -> DR;
     fn set_pixels(&mut self, sx: u16, sy: u16, ex: u16, ey: u16, it: &mut dyn Iterator<Item = u32>) -> DR;
     fn draw_iter(&mut self, it: &mut dyn Iterator<Item = (i32, i32, u32)>) -> DR;
@@ -162,14 +165,23 @@ pub trait Dut {
     fn is_sleeping(&self) -> bool;
 }
 
-impl<DI, M, RST> Dut for Display<DI, M, RST>
+impl<'a, DI, M, RST> Dut<'a> for Display<DI, M, RST>
 where
-    DI: Interface,
+    DI: Interface + Rebuild + 'a,
     DI::Error: Classify,
-    M: Model,
+    M: Model + 'a,
     M::ColorFormat: InterfacePixelFormat<DI::Word> + SimColor,
-    RST: OutputPin,
+    RST: OutputPin + 'a,
+    RST::Error: RstErr,
 {
+    fn reinit(self: Box<Self>, cfg: &Config, clk: &mut SimClock) -> Result<Box<dyn Dut<'a> + 'a>, InitFail> {
+        let (di, model, rst) = (*self).release();
+        let b = builder_with(cfg, model, di.rebuild());
+        match rst {
+            Some(r) => finish(b.reset_pin(r).init(clk)),
+            None => finish::<DI, M, NoResetPin>(b.init(clk)),
+        }
+    }
     fn set_pixel(&mut self, x: u16, y: u16, c: u32) -> DR {
         Display::set_pixel(self, x, y, M::ColorFormat::from_raw(c)).map_err(Classify::classify)
     }
@@ -370,9 +382,98 @@ trace_di!(KP16, u16, InterfaceKind::Parallel16Bit);
 
 // ------------------------------------------------------------ factory
 
-fn finish<'a, DI, M, RST>(r: Result<Display<DI, M, RST>, InitError<DI::Error, RST::Error>>) -> Result<Box<dyn Dut + 'a>, InitFail>
+/// placeholder while a display is being re-initialised
+pub struct DeadDut;
+impl<'a> Dut<'a> for DeadDut {
+    fn reinit(self: Box<Self>, _: &Config, _: &mut SimClock) -> Result<Box<dyn Dut<'a> + 'a>, InitFail> {
+        unreachable!()
+    }
+    fn set_pixel(&mut self, _: u16, _: u16, _: u32) -> DR {
+        unreachable!()
+    }
+    fn set_pixels(&mut self, _: u16, _: u16, _: u16, _: u16, _: &mut dyn Iterator<Item = u32>) -> DR {
+        unreachable!()
+    }
+    fn draw_iter(&mut self, _: &mut dyn Iterator<Item = (i32, i32, u32)>) -> DR {
+        unreachable!()
+    }
+    fn fill_contiguous(&mut self, _: Rect, _: &mut dyn Iterator<Item = u32>) -> DR {
+        unreachable!()
+    }
+    fn fill_solid(&mut self, _: Rect, _: u32) -> DR {
+        unreachable!()
+    }
+    fn clear(&mut self, _: u32) -> DR {
+        unreachable!()
+    }
+    fn set_orientation(&mut self, _: Orient) -> DR {
+        unreachable!()
+    }
+    fn sleep(&mut self, _: &mut SimClock) -> DR {
+        unreachable!()
+    }
+    fn wake(&mut self, _: &mut SimClock) -> DR {
+        unreachable!()
+    }
+    fn scroll_region(&mut self, _: u16, _: u16) -> DR {
+        unreachable!()
+    }
+    fn scroll_offset(&mut self, _: u16) -> DR {
+        unreachable!()
+    }
+    fn tearing(&mut self, _: u8) -> DR {
+        unreachable!()
+    }
+    fn test_image(&mut self) -> DR {
+        unreachable!()
+    }
+    fn orientation(&self) -> Orient {
+        unreachable!()
+    }
+    fn size(&self) -> (u32, u32) {
+        unreachable!()
+    }
+    fn bbox(&self) -> (i32, i32, u32, u32) {
+        unreachable!()
+    }
+    fn is_sleeping(&self) -> bool {
+        unreachable!()
+    }
+}
+
+/// Take an interface apart as far as its public API allows and put it together again.
+pub trait Rebuild {
+    fn rebuild(self) -> Self;
+}
+impl<'b> Rebuild for SpiInterface<'b, SimSpi, SimPin> {
+    fn rebuild(self) -> Self {
+        // the staging buffer cannot be recovered through the public API: keep the interface
+        self
+    }
+}
+impl<K> Rebuild for TraceDi<K> {
+    fn rebuild(self) -> Self {
+        self
+    }
+}
+type Bus8 = Generic8BitBus<SimPin, SimPin, SimPin, SimPin, SimPin, SimPin, SimPin, SimPin>;
+type Bus16 = Generic16BitBus<SimPin, SimPin, SimPin, SimPin, SimPin, SimPin, SimPin, SimPin, SimPin, SimPin, SimPin, SimPin, SimPin, SimPin, SimPin, SimPin>;
+impl Rebuild for ParallelInterface<Bus8, SimPin, SimPin> {
+    fn rebuild(self) -> Self {
+        let (bus, dc, wr) = self.release();
+        ParallelInterface::new(Generic8BitBus::new(bus.release()), dc, wr)
+    }
+}
+impl Rebuild for ParallelInterface<Bus16, SimPin, SimPin> {
+    fn rebuild(self) -> Self {
+        let (bus, dc, wr) = self.release();
+        ParallelInterface::new(Generic16BitBus::from(bus.release()), dc, wr)
+    }
+}
+
+fn finish<'a, DI, M, RST>(r: Result<Display<DI, M, RST>, InitError<DI::Error, RST::Error>>) -> Result<Box<dyn Dut<'a> + 'a>, InitFail>
 where
-    DI: Interface + 'a,
+    DI: Interface + Rebuild + 'a,
     DI::Error: Classify,
     M: Model + 'a,
     M::ColorFormat: InterfacePixelFormat<DI::Word> + SimColor,
@@ -392,24 +493,33 @@ where
     }
 }
 
-fn init_with<'a, DI, M>(cfg: &Config, model: M, di: DI, w: &WorldRef, clk: &mut SimClock) -> Result<Box<dyn Dut + 'a>, InitFail>
+fn builder_with<DI, M>(cfg: &Config, model: M, di: DI) -> Builder<DI, M, NoResetPin>
 where
-    DI: Interface + 'a,
-    DI::Error: Classify,
-    M: Model + 'a,
-    M::ColorFormat: InterfacePixelFormat<DI::Word> + SimColor,
+    DI: Interface,
+    M: Model,
+    M::ColorFormat: InterfacePixelFormat<DI::Word>,
 {
     let refresh = RefreshOrder::new(
         if cfg.refresh & 1 != 0 { VerticalRefreshOrder::BottomToTop } else { VerticalRefreshOrder::TopToBottom },
         if cfg.refresh & 2 != 0 { HorizontalRefreshOrder::RightToLeft } else { HorizontalRefreshOrder::LeftToRight },
     );
-    let b = Builder::new(model, di)
+    Builder::new(model, di)
         .display_size(cfg.w, cfg.h)
         .display_offset(cfg.ox, cfg.oy)
         .orientation(to_orientation(cfg.orient))
         .color_order(if cfg.bgr { ColorOrder::Bgr } else { ColorOrder::Rgb })
         .invert_colors(if cfg.invert { ColorInversion::Inverted } else { ColorInversion::Normal })
-        .refresh_order(refresh);
+        .refresh_order(refresh)
+}
+
+fn init_with<'a, DI, M>(cfg: &Config, model: M, di: DI, w: &WorldRef, clk: &mut SimClock) -> Result<Box<dyn Dut<'a> + 'a>, InitFail>
+where
+    DI: Interface + Rebuild + 'a,
+    DI::Error: Classify,
+    M: Model + 'a,
+    M::ColorFormat: InterfacePixelFormat<DI::Word> + SimColor,
+{
+    let b = builder_with(cfg, model, di);
     if cfg.rst {
         finish(b.reset_pin(SimPin::new(w, PIN_RST)).init(clk))
     } else {
@@ -417,7 +527,7 @@ where
     }
 }
 
-fn go_u8<'a, M>(model: M, cfg: &Config, w: &WorldRef, buf: &'a mut [u8], clk: &mut SimClock) -> Result<Box<dyn Dut + 'a>, InitFail>
+fn go_u8<'a, M>(model: M, cfg: &Config, w: &WorldRef, buf: &'a mut [u8], clk: &mut SimClock) -> Result<Box<dyn Dut<'a> + 'a>, InitFail>
 where
     M: Model + 'a,
     M::ColorFormat: InterfacePixelFormat<u8> + SimColor,
@@ -447,7 +557,7 @@ where
     }
 }
 
-fn go_u16<'a, M>(model: M, cfg: &Config, w: &WorldRef, clk: &mut SimClock) -> Result<Box<dyn Dut + 'a>, InitFail>
+fn go_u16<'a, M>(model: M, cfg: &Config, w: &WorldRef, clk: &mut SimClock) -> Result<Box<dyn Dut<'a> + 'a>, InitFail>
 where
     M: Model + 'a,
     M::ColorFormat: InterfacePixelFormat<u16> + SimColor,
@@ -500,7 +610,7 @@ macro_rules! only8 {
 }
 
 /// Build and initialise the display described by `cfg` on the world `w`.
-pub fn build<'a>(cfg: &Config, w: &WorldRef, buf: &'a mut [u8], clk: &mut SimClock) -> Result<Box<dyn Dut + 'a>, InitFail> {
+pub fn build<'a>(cfg: &Config, w: &WorldRef, buf: &'a mut [u8], clk: &mut SimClock) -> Result<Box<dyn Dut<'a> + 'a>, InitFail> {
     use ModelId::*;
     match cfg.model {
         ILI9341Rgb565 => both!(models::ILI9341Rgb565, cfg, w, buf, clk),
